@@ -25,6 +25,11 @@ Table 2 `optionUses`: every read of one of the option attributes / aliases: 0 in
   1 alias assignment, 2 argument of a comment template, 3 allow-listed, 9 OTHER.
 Table 3 `commentListWrites`: every append/extend to a list named stmts_comments*: 0 comment text and under a
   debug guard or inside an emitter, 9 OTHER.
+Table 4 `fileDecisionAppends`: a comment appended to a list that is also tested for emptiness (`if self.impl:
+  write_file = True`) is not comment-only in effect: it can make a file appear.  Every option-guarded append (and
+  every `_create_splicer(name, X)` call, which appends marker comments to X under show_splicer_comments) whose
+  target list is truth-tested anywhere in the same file: 0 dominated (the statement list that holds the outermost
+  guard also appends to the same list unconditionally, so the list is non-empty either way), 7 allow-listed, 9 OTHER.
 The Lean theorem says that no row of any table has class 9.
 
 Assumption recorded by the check (not provable from the AST): dynamic text spliced into a comment template
@@ -147,6 +152,8 @@ class FileScan:
         self.rows = []      # (opt, line, cls, text)
         self.uses = []      # (opt, line, kind, text)
         self.clist = []     # (line, cls, text)
+        self.fdec = []      # (line, cls, text)   appends to lists that decide whether a file is written
+        self.decision = set()
         self.aliases = {}   # (func node, name) -> opt
 
     # ---------------------------------------------------------------- comment expressions
@@ -243,6 +250,103 @@ class FileScan:
         name = e.id if isinstance(e, ast.Name) else e.attr if isinstance(e, ast.Attribute) else ""
         return name.startswith("stmts_comments")
 
+    # ---------------------------------------------------------------- lists whose emptiness is tested
+    @staticmethod
+    def _lname(e):
+        while isinstance(e, ast.Subscript):
+            e = e.value
+        return e.attr if isinstance(e, ast.Attribute) else e.id if isinstance(e, ast.Name) else None
+
+    def collect_decision(self):
+        def operands(t):
+            if isinstance(t, ast.BoolOp):
+                for v in t.values:
+                    for x in operands(v):
+                        yield x
+            elif isinstance(t, ast.UnaryOp) and isinstance(t.op, ast.Not):
+                for x in operands(t.operand):
+                    yield x
+            elif isinstance(t, ast.Compare):
+                for x in operands(t.left):
+                    yield x
+            elif isinstance(t, ast.Call) and isinstance(t.func, ast.Name) and t.func.id == "len" and t.args:
+                yield t.args[0]
+            elif isinstance(t, (ast.Attribute, ast.Name, ast.Subscript)):
+                yield t
+        for n in ast.walk(self.tree):
+            if isinstance(n, (ast.If, ast.IfExp, ast.While)):
+                for o in operands(n.test):
+                    nm = self._lname(o)
+                    if nm:
+                        self.decision.add(nm)
+
+    def target_keys(self, e, func):
+        """names under which the list expression e may be truth-tested (its own name, and the attribute a local alias stands for)"""
+        keys = set()
+        nm = self._lname(e)
+        if nm:
+            keys.add(nm)
+        if isinstance(e, ast.Name):
+            for n in ast.walk(func):
+                if (isinstance(n, ast.Assign) and len(n.targets) == 1 and isinstance(n.targets[0], ast.Name)
+                        and n.targets[0].id == e.id and self._lname(n.value)):
+                    keys.add(self._lname(n.value))
+        return keys
+
+    @staticmethod
+    def append_target(st):
+        """list expression an expression statement appends to, or None"""
+        if not (isinstance(st, ast.Expr) and isinstance(st.value, ast.Call)):
+            return None
+        c = st.value
+        f = c.func
+        if isinstance(f, ast.Attribute) and f.attr in ("append", "extend", "insert"):
+            return f.value
+        name = f.attr if isinstance(f, ast.Attribute) else f.id if isinstance(f, ast.Name) else None
+        if name in ("append_format", "append_format_lst") and c.args:
+            return c.args[0]
+        if name in EMITTERS and c.args:
+            return c.args[0]
+        if name == "_create_splicer" and len(c.args) >= 2:
+            return c.args[1]
+        return None
+
+    def check_decision(self, st, func, guarded=True):
+        tgt = self.append_target(st)
+        if tgt is None or not isinstance(func, ast.FunctionDef):
+            return
+        keys = self.target_keys(tgt, func)
+        if not (keys & self.decision):
+            return
+        # outermost option guard around st (for _create_splicer calls: the call itself is the guarded site)
+        top = st
+        c = st
+        while c is not None and c is not func:
+            p = getattr(c, "_parent", None)
+            if guarded and isinstance(p, ast.If) and p.test is not c and self.mentions(p.test, func):
+                top = p
+            c = p
+        holder = getattr(top, "_parent", None)
+        sibs = []
+        for fld in ("body", "orelse", "finalbody"):
+            lst = getattr(holder, fld, None)
+            if isinstance(lst, list) and top in lst:
+                sibs = lst
+        dominated = False
+        for sb in sibs:
+            if sb is top:
+                continue
+            t2 = self.append_target(sb)
+            if t2 is not None and self.target_keys(t2, func) & keys:
+                f2 = sb.value.func
+                n2 = f2.attr if isinstance(f2, ast.Attribute) else f2.id
+                if n2 not in EMITTERS and n2 != "_create_splicer":
+                    dominated = True
+        text = ast.unparse(st).split("\n")[0][:100]
+        fn = func.name
+        cls = "comment-append" if dominated else ("allow" if allowed(self.fname, fn, "decision:" + ast.unparse(st)) else "OTHER")
+        self.fdec.append((st.lineno, cls, "%s [tested list: %s]" % (text, ",".join(sorted(keys & self.decision)))))
+
     # ---------------------------------------------------------------- statement classification
     def classify(self, st, func, opt, span, local_defs=()):
         """append rows for statement st executed under guard `opt`; span = (first, last) line of the guarded block"""
@@ -300,6 +404,8 @@ class FileScan:
         if isinstance(st, ast.Expr) and isinstance(st.value, ast.Call):
             c = st.value
             f = c.func
+            if opt != "emitter":
+                self.check_decision(st, func)
             if isinstance(f, ast.Attribute) and f.attr in ("append", "insert") and c.args:
                 return row("comment-append" if self.cexpr(c.args[-1]) else "OTHER")
             if isinstance(f, ast.Attribute) and f.attr == "extend" and len(c.args) == 1:
@@ -337,6 +443,7 @@ class FileScan:
     # ---------------------------------------------------------------- scan
     def scan(self):
         funcs = [n for n in ast.walk(self.tree) if isinstance(n, ast.FunctionDef)]
+        self.collect_decision()
         # aliases: x = <...>.<opt>
         for f in funcs:
             for n in ast.walk(f):
@@ -409,6 +516,20 @@ class FileScan:
                 else:
                     kind = "OTHER"
                 self.uses.append((o, n.lineno, kind, text))
+        # _create_splicer(name, X, ...) appends marker comments to X under show_splicer_comments
+        for f in funcs:
+            for n in ast.walk(f):
+                if (isinstance(n, ast.Expr) and isinstance(n.value, ast.Call) and enclosing_func(n) is f
+                        and isinstance(n.value.func, ast.Attribute) and n.value.func.attr == "_create_splicer"):
+                    self.check_decision(n, f, guarded=False)
+        # unguarded extends with a comment list (filled under debug only) have the same effect
+        for f in funcs:
+            for n in ast.walk(f):
+                if (isinstance(n, ast.Expr) and isinstance(n.value, ast.Call) and enclosing_func(n) is f
+                        and isinstance(n.value.func, ast.Attribute) and n.value.func.attr == "extend"
+                        and len(n.value.args) == 1 and self.is_comment_list(n.value.args[0])
+                        and not self.inside_guard(n, f)):
+                    self.check_decision(n, f, guarded=False)
         # comment lists
         for f in funcs:
             for n in ast.walk(f):
@@ -471,6 +592,13 @@ def render(scans):
         for (line, cls, text) in s.clist:
             rows.append("  (%d, %d, %d)" % (fi, line, CLS[cls]) + ",   -- %s: %s" % (s.fname, text))
     out += _strip_last_comma(rows)
+    out += ["]", "", "/-- (file, line, class) of every option-guarded append to a list whose emptiness is tested in the same file -/",
+            "def fileDecisionAppends : List (Nat × Nat × Nat) := ["]
+    rows = []
+    for fi, s in enumerate(scans):
+        for (line, cls, text) in s.fdec:
+            rows.append("  (%d, %d, %d)" % (fi, line, CLS[cls]) + ",   -- %s: %s" % (s.fname, text))
+    out += _strip_last_comma(rows)
     out += ["]", "", "end Shroud.Gen.Guards", ""]
     return "\n".join(out)
 
@@ -498,7 +626,9 @@ def regenerate(repo=None):
         comment_list_writes=sum(len(s.clist) for s in scans),
         other=[("%s:%d" % (s.fname, r[1]), r[0], r[3]) for s in scans for r in s.rows if r[2] == "OTHER"]
               + [("%s:%d" % (s.fname, r[1]), r[0], "use: " + r[3]) for s in scans for r in s.uses if r[2] == "OTHER"]
-              + [("%s:%d" % (s.fname, r[0]), "comment-list", r[2]) for s in scans for r in s.clist if r[1] == "OTHER"],
+              + [("%s:%d" % (s.fname, r[0]), "comment-list", r[2]) for s in scans for r in s.clist if r[1] == "OTHER"]
+              + [("%s:%d" % (s.fname, r[0]), "file-decision-list", r[2]) for s in scans for r in s.fdec if r[1] == "OTHER"],
+        file_decision_appends={k: sum(1 for s in scans for r in s.fdec if r[1] == k) for k in ("comment-append", "allow", "OTHER")},
         allow=sum(1 for s in scans for r in s.rows if r[2] == "allow") + sum(1 for s in scans for r in s.uses if r[2] == "allow"),
         by_class={k: sum(1 for s in scans for r in s.rows if r[2] == k) for k in CLS},
         by_option={o: sum(1 for s in scans for r in s.rows if r[0] == o) for o in OPTS},
